@@ -328,6 +328,37 @@ CLAIMS = {
              'configurations per mode; dtype casting and the weighted '
              'adjoint identity on non-uniformly weighted spaces are not '
              'decided.'),
+    'C15': dict(
+        cat='proof', ref='DESIGN.md section 2, C15',
+        tech='symbolic interpretation of the interpolator classes and public'
+             ' factories on grids with symbolic nodes and node values, one '
+             'evaluation per ordering case of each query coordinate with '
+             'interval-wide decision of every comparison; dtype-kind '
+             'abstract interpretation of the accumulation; value-capturing '
+             'interpretation of the forwarding in Resampling, linear_deform '
+             'and DiscretizedSpace.element; signature-class table of the '
+             'callable inspection',
+        text='For every ordering case of the query relative to the nodes '
+             '(on a node, in either half of a cell, on the tie, just outside'
+             ' the hull), in 1, 2 and 3 dimensions and for every per-axis '
+             'scheme combination, the value computed by nearest_interpolator'
+             ' / linear_interpolator / per_axis_interpolator (and the '
+             'classes behind them, with and without out=) is, as a '
+             'polynomial identity in node values and distances, the closest '
+             'node value with ties to the right resp. the multilinear blend '
+             'of the surrounding nodes -- hence node values are reproduced '
+             'and linear interpolation is exact on affine functions for '
+             'arbitrary non-uniform nodes.  Nearest-neighbour interpolation '
+             'performs no arithmetic on the values; the out-of-place '
+             'accumulation is closed for integer, float and complex values; '
+             'Resampling, linear_deform and DiscretizedSpace.element hand '
+             'the right values, nodes, points and keyword arguments to the '
+             'interpolation / sampling helpers; the (has_out, out_optional) '
+             'classification of callables is correct on all signature '
+             'classes.',
+        note='Trusted: ' + TB + '. Not decided: broadcasting and '
+             'vectorisation of user callables, equivalence of mesh-grid and '
+             'point-array conventions (NumPy shape semantics), rounding.'),
 }
 
 NOT_YET = 'check not implemented yet in this commit (DESIGN.md section 6 build order)'
